@@ -1,4 +1,5 @@
-\* Reference configuration (the harness writes its own with the tier's Fam/Wide/Stride/Offset).
+\* Reference configuration (the harness writes its own with the tier's Fam/Wide/Stride/Offset;
+\* Fam = "num" is the family of parameters at the extremes of their machine types).
 SPECIFICATION Spec
 CONSTANTS
   Fam = "all"
